@@ -132,6 +132,20 @@ package offline_signature
 //@   }
 //@ }
 
+// C06, after the wire: the value parsed back from Bytes() verifies too
+// (everything executed from the bodies).
+//@ option C06_OfflineVerifyAfterWire nocontract *
+//@ lemma C06_OfflineVerifyAfterWire(expires uint32, tt uint16, tk []byte, priv ed25519.PrivateKey, dt uint16) {
+//@   assume(len(priv) == 64)
+//@   o, err := CreateOfflineSignature(expires, tt, tk, priv, dt)
+//@   if err == nil {
+//@     o2, rem, e2 := ReadOfflineSignature(o.Bytes(), dt)
+//@     assert(e2 == nil && len(rem) == 0)
+//@     ok2, e3 := o2.VerifySignature(priv[32:])
+//@     assert(e3 == nil && ok2)
+//@   }
+//@ }
+
 // must-fail canary: nothing was verified, so nothing is known to be valid
 //@ lemma T_mustfail_sig(o *OfflineSignature, k []byte) {
 //@   assert(sigvalid(k, OffSignedData(o), o.signature))
